@@ -106,7 +106,8 @@ PLAN = {
         "domains": "U",
         "technique": _VC + " (domain U, unbounded)",
         "monitor": None,
-        "explanation": _U_EXPL + "List order is abstracted (the property speaks about sets and duplicate-freeness).",
+        "explanation": _U_EXPL + "List order is abstracted (the property speaks about sets and duplicate-freeness). Hypothesis on the term class: Term.vars is duplicate-free (proved for PolyhedralTerm by the C04 obligation PolyhedralTerm.accessors::vars.duplicate_free, domain S).",
+        "trusted": ["Term.vars returns a duplicate-free list (proved for PolyhedralTerm in domain S by PolyhedralTerm.accessors; an assumption of this unbounded proof)"],
     },
     "C08": {
         "level": "other",
